@@ -80,6 +80,10 @@ struct PropDef {
     bool forked;         // run each case in a forked child
     Describe describe;   // human readable rendering for samples (may be null)
     int max_size;        // rapidcheck max size
+    // optional exhaustive enumeration of a finite configuration space (used with --enumerate):
+    // enum_count() cases, enum_at(i) builds the i-th payload
+    std::function<uint64_t()> enum_count = nullptr;
+    std::function<std::vector<uint64_t>(uint64_t)> enum_at = nullptr;
 };
 
 struct Stats {
@@ -177,7 +181,9 @@ struct Options {
     uint64_t cases = 1000, seed = 1, worker = 0;
     std::string out, replay, only, hashdump, faildir = ".";
     std::vector<std::string> excludes;
-    bool nofork = false, forkall = false;
+    bool nofork = false, forkall = false, enumerate = false;
+    uint64_t nworkers = 1;
+    int level = 0;
     std::string casefile;
 };
 // "current case" record: lets the driver attribute a crash of an in-process run to a case
@@ -240,6 +246,9 @@ inline int harness_main(int argc, char **argv, const char *harness, std::vector<
         else if (a == "--exclude") o.excludes.push_back(nxt());
         else if (a == "--nofork") o.nofork = true;
         else if (a == "--forkall") o.forkall = true;
+        else if (a == "--enumerate") o.enumerate = true;
+        else if (a == "--nworkers") o.nworkers = strtoull(nxt().c_str(), 0, 0);
+        else if (a == "--level") o.level = atoi(nxt().c_str());
         else if (a == "--casefile") o.casefile = nxt();
         else if (a == "--timeout") fork_timeout() = atoi(nxt().c_str());
         else if (a == "--list") { for (auto &p : props) printf("%s\n", p.name.c_str()); return 0; }
@@ -288,6 +297,28 @@ inline int harness_main(int argc, char **argv, const char *harness, std::vector<
     for (auto &p : props) if (is_sel(p)) wsum += p.weight;
     for (auto &p : props) {
         if (!is_sel(p)) continue;
+        if (o.enumerate) {
+            // exhaustive walk of a finite space, striped over workers; the first failure in enumeration
+            // order (small configurations first) is the reported counterexample
+            if (!p.enum_count) continue;
+            uint64_t n = p.enum_count();
+            stats().classes["enumerated-space-size:" + p.name] = n;
+            for (uint64_t i = o.worker; i < n; i += (o.nworkers ? o.nworkers : 1)) {
+                Case c; c.prop = p.name; c.v = p.enum_at(i);
+                Ctx ctx;
+                casefile_note(c);
+                bool ok = ((p.forked || o.forkall) && !o.nofork) ? run_forked(p.body, c, ctx) : p.body(c, ctx);
+                account(p, c, ctx);
+                if (!ok) {
+                    Failure f; f.prop = p.name; f.casestr = c.str(); f.why = ctx.why; f.desc = p.describe ? p.describe(c) : c.str();
+                    failures.push_back(f);
+                    fprintf(stderr, "[%s] FALSIFIED (enumeration) %s : %s\n   why: %s\n", harness, p.name.c_str(), f.desc.c_str(), f.why.c_str());
+                    break;
+                }
+            }
+            continue;
+        }
+        if (p.enum_count && p.weight <= 0) continue;
         rc::detail::TestParams params;
         params.seed = mix(mix(o.seed, o.worker), std::hash<std::string>()(p.name) & 0xffffffffull);
         params.maxSuccess = (int)std::max<uint64_t>(1, (uint64_t)(o.cases * p.weight / wsum));
